@@ -38,6 +38,11 @@ func numIndex(sc Scope, resid []residual, min int, sliceMode bool) func(p *load.
 			if !sc.has(p, fn) || len(fn.Blocks) == 0 {
 				continue
 			}
+			// formatting code (a String() method and what only it calls) works on text this module
+			// produced, not on input: out of the scope of the input-side clause
+			if formatOnly(p, fn, 0) {
+				continue
+			}
 			var env *intervalEnv
 			name := p.FuncName(fn)
 			for _, b := range fn.Blocks {
@@ -758,7 +763,6 @@ var ScopeSlice = Scope{Name: "reader, symbol table, unmarshal and timestamp file
 // SliceResiduals: one named slice bound, one reason each.
 var SliceResiduals = []residual{
 	{"(*bitstream).readN", "[low bound phi filled]", "filled is 0 or len(bs) of the previous round and bs only grows by append, so filled <= len(bs); the loop invariant relates a phi to the length of another phi"},
-	{"(Timestamp).String", "[high bound phi timeZoneIndex]", "timeZoneIndex is the position of 'Z', '+' or '-' found in the same formatted string by LastIndex/IndexAny a few lines above (formatting side, not reachable with caller-controlled text)"},
 	{"(Timestamp).String", "[low bound phi timeZoneIndex]", "same value as the high bound above"},
 }
 
@@ -890,4 +894,51 @@ func callersEstablishBound(env *intervalEnv, xp, bp *ssa.Parameter) string {
 		return ""
 	}
 	return sprintf("every one of the %d call sites passes a bound within the length of the object it passes", sites)
+}
+
+var formatOnlyCache = map[*ssa.Function]bool{}
+
+// formatOnly: fn is a String() method (fmt.Stringer) or is reached, through
+// static calls inside the module, only from such methods.
+func formatOnly(p *load.Program, fn *ssa.Function, depth int) bool {
+	if v, ok := formatOnlyCache[fn]; ok {
+		return v
+	}
+	if fn.Name() == "String" && fn.Signature.Recv() != nil && fn.Signature.Params().Len() == 0 {
+		formatOnlyCache[fn] = true
+		return true
+	}
+	if depth > 3 || (fn.Object() != nil && fn.Object().Exported()) || fn.Parent() != nil {
+		return false
+	}
+	formatOnlyCache[fn] = false // cycles
+	n := 0
+	for _, caller := range p.Funcs {
+		if p.InTest(caller) {
+			continue
+		}
+		for _, b := range caller.Blocks {
+			for _, in := range b.Instrs {
+				c, ok := in.(ssa.CallInstruction)
+				if !ok {
+					continue
+				}
+				used := load.Unwrap(c.Common().StaticCallee()) == fn
+				for _, a := range c.Common().Args {
+					if a == ssa.Value(fn) {
+						used = true
+					}
+				}
+				if !used {
+					continue
+				}
+				n++
+				if !formatOnly(p, caller, depth+1) {
+					return false
+				}
+			}
+		}
+	}
+	formatOnlyCache[fn] = n > 0
+	return n > 0
 }
